@@ -84,7 +84,7 @@ func (x *coal) appendsWarning(b *ssa.BasicBlock) bool {
 func init() {
 	props["C09"] = propC09
 	propMeta["C09"] = PropMeta{
-		Explanation: "Coalescing decided structurally: every Data() call in aucoalesce has its error tested and the failing edge appends a warning (or returns the error); CoalesceMessages/normalizeCompound return (nil, err) for no records / no SYSCALL record before an event is built; every delete from event.Data is a move (the same key was looked up and stored into an event field first), except the documented 'items'; in the loops that distribute a record's pairs every iteration stores the value into the event or appends a warning, a key may be skipped only if it was consumed explicitly before the loop; the file summary takes name/inode/rdev/ouid/ogid from the selected PATH record into the documented fields and mode & 07777 in octal; the object type must not be derived by applying os.FileMode predicates/constants to a raw st_mode (unit confusion: Go's type bits are not S_IF*); the event identity is read from one message selected before the SYSCALL record replaces it.",
+		Explanation: "Coalescing decided structurally: every Data() call in aucoalesce has its error tested and the failing edge appends a warning (or returns the error); CoalesceMessages/normalizeCompound return (nil, err) for no records / no SYSCALL record before an event is built; every delete from event.Data is a move (the same key was looked up and stored into an event field first), except the documented 'items'; in the loops that distribute a record's pairs every iteration stores the value into the event or appends a warning, a key may be skipped only if it was consumed explicitly before the loop; the file summary takes name/inode/rdev/ouid/ogid from the selected PATH record into the documented fields and mode & 07777 in octal; the object type must not be derived by applying os.FileMode predicates/constants to a raw st_mode (unit confusion: Go's type bits are not S_IF*); the event identity is read from one message selected before the SYSCALL record replaces it. The record that gives the event its identity is the leading record whenever that is not the SYSCALL record (the only conditions on taking it are first-element and not-SYSCALL).",
 		NotDecided:  "That every key of every record type ends up somewhere (EXECVE keys other than argc/aN, a second SYSCALL record), which PATH record is 'the' object, and first-record identity across all record orders.",
 		Assumptions: []string{"frozen POSIX S_IF* values (ref/uapi_audit.json stat_modes)"},
 	}
@@ -861,7 +861,7 @@ func init() {
 	props["C15"] = propC15
 	propMeta["C15"] = PropMeta{
 		Technique:   "static analysis: value-origin (taint) propagation with a field-based heap, lockset, writer census",
-		Explanation: "Repeatability and isolation decided structurally: no map insert/delete, element store, copy or clear on a value whose origin is (*AuditMessage).Data() or Tags() anywhere in aucoalesce (the maps are the messages' memoised state, handed out by reference); the functions reachable from CoalesceMessages/ResolveIDs write no package-level variable and nothing reachable from the global normalisation tables, which are assigned only in init; every access to the mutable state of the ID caches is under the cache mutex, and the only call made while holding it is the lookup function, which cannot re-enter the cache; the coalescer's own slicing/indexing is in bounds; normalisation selection does not depend on map iteration order.",
+		Explanation: "Repeatability and isolation decided structurally: no map insert/delete, element store, copy or clear on a value whose origin is (*AuditMessage).Data() or Tags() anywhere in aucoalesce (the maps are the messages' memoised state, handed out by reference); the functions reachable from CoalesceMessages/ResolveIDs write no package-level variable and nothing reachable from the global normalisation tables, which are assigned only in init; every access to the mutable state of the ID caches is under the cache mutex, and the only call made while holding it is the lookup function, which cannot re-enter the cache; the coalescer's own slicing/indexing is in bounds; normalisation selection does not depend on map iteration order. No value loaded from any package-level variable of aucoalesce (ID caches excepted) is written through on the coalescing path; Data() memoises success and failure alike (shared with C05.R3).",
 		NotDecided:  "Deep equality of two coalescings; data races outside the ID caches (messages memoise Data() without a lock: sharing one message between goroutines is outside the property); aliasing of ECS category/type slices with the global tables through append (safe today only because yaml.v3 allocates cap == len; noted, not armed).",
 		Assumptions: []string{"sync.Mutex semantics", "field-based heap abstraction (coarse: may over-report)"},
 	}
